@@ -265,7 +265,7 @@ func runShard(b *build, p *Plan, tier string, seed int64, ji int, job Job, i int
 		"VERIF_HARNESS="+harnessDir,
 	)
 	if job.Race {
-		env = append(env, "GORACE=halt_on_error=1 exitcode=66")
+		env = append(env, "GORACE=history_size=5")
 	}
 	t0 := time.Now()
 	ctx, cancel := context.WithTimeout(context.Background(), time.Duration(to)*time.Second)
@@ -465,6 +465,21 @@ func run(id, tier string) int {
 				}
 			}
 		}
+		// the race detector and the runtime's concurrent-map check report through the process output
+		if !r.timedOut && (bytes.Contains(r.out, []byte("WARNING: DATA RACE")) || bytes.Contains(r.out, []byte("fatal error: concurrent map"))) {
+			fp := "C19/data-race"
+			if bytes.Contains(r.out, []byte("fatal error: concurrent map")) {
+				fp = "C19/concurrent-map-access"
+			}
+			os.MkdirAll(repDir, 0o755)
+			base := fmt.Sprintf("%s-%s-seed%d", r.job.Test, sanitize(fp), r.seed)
+			txt := filepath.Join(repDir, base+".txt")
+			os.WriteFile(txt, r.out, 0o644)
+			meta, _ := json.Marshal(map[string]any{"property": id, "test": r.job.Test, "fingerprint": fp, "rapid_seed": r.seed, "tier": tier})
+			os.WriteFile(filepath.Join(repDir, base+".meta.json"), meta, 0o644)
+			viols = append(viols, viol{fp, raceExcerpt(r.out), txt})
+			continue
+		}
 		if r.exit != 0 || r.timedOut {
 			isViol := false
 			if r.stats != nil && len(r.stats.Violations) > 0 && !r.timedOut {
@@ -579,6 +594,23 @@ func run(id, tier string) int {
 		return 2
 	}
 	return 0
+}
+
+// raceExcerpt returns the first race report (or runtime fatal error) of a shard's output.
+func raceExcerpt(out []byte) string {
+	s := string(out)
+	i := strings.Index(s, "WARNING: DATA RACE")
+	if i < 0 {
+		i = strings.Index(s, "fatal error: concurrent map")
+	}
+	if i < 0 {
+		return ""
+	}
+	s = s[i:]
+	if len(s) > 2500 {
+		s = s[:2500]
+	}
+	return s
 }
 
 func firstLines(s string, n int) string {
